@@ -25,7 +25,7 @@ def run(ctx):
     if need - set(classes):
         raise vlib.Inconclusive(f'vacuity guard: point classes never produced by the spec: {sorted(need - set(classes))}')
     binary = ctx.go_build('fieldset')
-    nconc = 1 if tier == 'quick' else 2
+    nconc = 1      # (thorough differs by batches of <= 4 points: 66 660 cases instead of 6 660)
     for k in range(nconc):
         res, lines = ctx.replay(binary, cases, procs=vlib.NCPU, par=1, timeout=6000, case_timeout='1500s',
                                 args={'conc': ctx.seed + 7 * k})
